@@ -79,6 +79,12 @@ def verify_function(world, cname, prop, timeout_ms=QUICK_TIMEOUT_MS, source_over
     res.contract_name = refine_of or cname
     t0 = time.time()
     c = api.CONTRACTS[refine_of or cname]
+    own = api.CONTRACTS.get(cname)
+    if refine_of and own is not None and own is not c and own.loops:
+        # the implementation's own contract supplies the loop invariants for the refinement proof
+        import copy
+        c = copy.copy(c)
+        c.loops, c.inst_depth, c.ghosts = own.loops, own.inst_depth, own.ghosts
     try:
         rec, dq, q = locate(world, cname)
         if source_override is not None:
